@@ -301,16 +301,29 @@ def run(pid, cfg, seed, tier, workdir, log, harness, driver, replay_lines=None):
     nested_done = {}
     for hi, (keys, steps, src) in enumerate(histories):
         wdir = os.path.join(workdir, "h%d" % hi)
-        res, err = run_workload(harness, steps, "sync", wdir, log)
+        bg = (mode == "bg") or (wcfg.get("bg_share", 0) > 0 and src == "gen" and rng.random() < wcfg.get("bg_share", 0))
+        res, err = run_workload(harness, steps, "bg" if bg else "sync", wdir, log)
         if err:
             cases.append(dict(op="walhist %s" % " ".join(steps), impl="harness:" + err, model="-", spec=None, hyps=[], tags=src))
             continue
         root, ops = res
         # (i) trace shape
-        real = " ".join(step_kinds(ops, steps, root))
-        trace_lines.append(("waltrace %d %s" % (year, " ".join(steps)), real, src))
+        if bg:
+            # background writer: events are timer driven; the recorded kind sequence must be a path
+            # of the model (trace validation)
+            sizes = {}
+            kinds = "".join(k for k in (kind_of(o, root, sizes) for o in ops) if k not in ("A", "c", "D"))
+            # drop the start-up status write + fsync of the new WAL file
+            if kinds.startswith("WF"):
+                kinds = kinds[2:]
+            trace_lines.append(("walaccept %s" % (kinds or "-"), "accepted", src + ",bg"))
+        else:
+            real = " ".join(step_kinds(ops, steps, root))
+            trace_lines.append(("waltrace %d %s" % (year, " ".join(steps)), real, src))
         # (ii) crash points
         pos = positions(ops, steps, root)
+        if bg:
+            pos = [(k, a, "*") for (k, a, jj) in pos]
         ks = list(range(len(pos)))
         if sample and len(ks) > sample:
             # always keep the points around every ack and fsync, sample the rest
@@ -329,7 +342,7 @@ def run(pid, cfg, seed, tier, workdir, log, harness, driver, replay_lines=None):
         applied = 0
         for idx in ks:
             k, a, jj = pos[idx]
-            if mode in ("crash", "twice", "nested"):
+            if mode in ("crash", "twice", "nested", "bg"):
                 while applied < k:
                     if ops[applied]["kind"] not in ("ack", "fsync", "sync"):
                         img.apply(ops[applied])
@@ -344,8 +357,8 @@ def run(pid, cfg, seed, tier, workdir, log, harness, driver, replay_lines=None):
             for pname, snap in patterns:
                 dest = os.path.join(workdir, "img-%d-%d-%s" % (hi, k, pname))
                 line = "%s %d %d %s %s %s" % (wcfg.get("op", "walcrash"), year, a, jj, ",".join(keys), " ".join(steps))
-                tagl = "%s,k=%d/%d,mode=%s,pattern=%s,inflight=%s" % (
-                    src, k, len(ops), mode, pname, (steps[a][0] if a < len(steps) else "none"))
+                tagl = "%s,k=%d/%d,mode=%s,pattern=%s,inflight=%s%s" % (
+                    src, k, len(ops), mode, pname, (steps[a][0] if a < len(steps) else "none"), ",bg" if bg else "")
                 if mode == "nested":
                     # only states with something to replay are interesting; bound the number per history
                     if nested_done.get(hi, 0) >= wcfg.get("nested_per_history", {}).get(tier, 2 if tier == "quick" else 12):
